@@ -321,9 +321,23 @@ def analyse_subinputs(db, R, kinds):
         if not cons: continue
         rule = ((fn.get('cls') or {}).get('s') or fn['q']).replace(T, '')[:80]
         lazy = 'tracking_mode::lazy' in fn['disp']
+        import re
+        def mode_eol(t):
+            m = re.search(r'memory_input<tao::pegtl::tracking_mode::(\w+), tao::pegtl::eol::(\w+)', t or '')
+            return m.groups() if m else None
+        main = None
+        for p in fn.get('params', []):
+            main = main or mode_eol(p.get('t'))
         for c in cons:
             probs = []
             cpt = c.get('cpt') or []
+            # lines are counted the same way inside the sub-range: the second input has the tracking mode and the end-of-line policy of the main input
+            second = mode_eol(c.get('cq')) or mode_eol(c.get('t'))
+            if main is not None:
+                kinds['subinput-policy'] += 1
+                if second is None: raise bits.Unmodelled('type of the second input in %s' % fn['disp'][:120])
+                if second != main:
+                    probs.append('the second input is a memory_input< tracking_mode::%s, eol::%s > while the main input is < tracking_mode::%s, eol::%s >: lines and columns inside the sub-range are counted with another end-of-line character' % (second + main))
             if not cpt or 'inputerator' not in cpt[0]:
                 probs.append('the second input is constructed from %s: its byte, line and column start at 0:1:1 instead of the position of the main input' % (cpt[0] if cpt else '?'))
             else:
@@ -527,7 +541,7 @@ def run(tier):
     for site in sorted(set(sites) - set(covered)):
         R.broke('the position shortcut at %s (%s) is not reached by any analysed instantiation: it cannot be justified' % (site, sites[site]))
     R.cov['obligations_by_kind'] = dict(kinds)
-    for k, fl in (('shortcut', 220), ('bump', 3), ('forward', 55), ('scanner', 12), ('subinput', 2), ('writer', 11), ('ctor', 8)):
+    for k, fl in (('shortcut', 220), ('bump', 3), ('forward', 55), ('scanner', 12), ('subinput', 2), ('subinput-policy', 4), ('writer', 11), ('ctor', 8)):
         if kinds.get(k, 0) < fl: R.broke('only %d %s obligations (floor %d)' % (kinds.get(k, 0), k, fl))
     R.assumptions = ['UTF-16/32 and multi-byte binary rules are outside the statement (documented exclusion); the ICU rules use the general bump()',
                      'single-unit and fixed-string rules are decided exactly for all inputs whose relevant window is 9 bytes; the digit, chunk-size and raw-string scanners on all class strings up to the bound; '
